@@ -295,9 +295,6 @@ theorem optionalErrors_length_var (l : Term) (n : Nat) : optionalErrors "length"
 
 /-! ### `unifyM` on arbitrary terms -/
 
-/-- the fuel of the general path of `unifyM` -/
-def unifyFuel (a b : Term) : Nat := 4 * (a.size + b.size) * (max (boundT a) (boundT b) + 2) + 8
-
 /-- `unifyM a b` is defined: one side is ground (matching, no fuel involved) or the Robinson
     unifier finished within its fuel -/
 def UnifyDefined (a b : Term) : Prop :=
@@ -305,7 +302,7 @@ def UnifyDefined (a b : Term) : Prop :=
 
 theorem unifyM_general {a b : Term} (hb : groundT b = false) (ha : groundT a = false) :
     unifyM a b = (match unifyE (unifyFuel a b) [(a, b)] with | some r => r | none => none) := by
-  simp only [unifyM, hb, ha, unifyFuel, Bool.false_eq_true, if_false]
+  simp only [unifyM, hb, ha, Bool.false_eq_true, if_false]
   split <;> rename_i h <;> simp [h]
 
 /-- `unifyM` computes a most general unifier, and fails only when there is none -/
@@ -633,4 +630,26 @@ theorem resolves_append (y : Term) : (xs : List Term) →
     · have := resolves_append y rest
       simpa [appendClausePairs, Term.a3, substT, substA, assignList] using this
 
+/-! ### the executable side conditions imply the propositional ones -/
+
+theorem unifyDefined_of_B {a b : Term} (h : unifyDefinedB a b = true) : UnifyDefined a b := by
+  simp only [unifyDefinedB, Bool.or_eq_true] at h
+  rcases h with (h | h) | h
+  · exact Or.inl h
+  · exact Or.inr (Or.inl h)
+  · refine Or.inr (Or.inr ?_)
+    intro hn; rw [hn] at h; cases h
+
+theorem sldDefined_of_B {clauses : List Clause} : (f : Nat) → (goals args : List Term) →
+    sldDefinedB clauses f goals args = true → SldDefined clauses f goals args
+  | 0, _, _, _ => trivial
+  | _ + 1, [], _, _ => trivial
+  | f + 1, g :: gs, args, h => by
+    simp only [sldDefinedB, List.all_eq_true, Bool.and_eq_true] at h
+    intro c hc
+    obtain ⟨h1, h2⟩ := h c hc
+    refine ⟨unifyDefined_of_B h1, ?_⟩
+    intro δ hδ
+    rw [hδ] at h2
+    exact sldDefined_of_B f _ _ h2
 end PrologVerif.Rel
